@@ -307,6 +307,39 @@ def r2_rr(F, res):
         retain_kinds[cpath] = k
         return k
 
+
+    pred_kinds = {}
+
+    def is_non_empty_reduce_pred(cpath):
+        """the closure answers true exactly for `Action::Reduce(_, len)` with len > 0 (any spelling of that comparison)"""
+        if cpath in pred_kinds:
+            return pred_kinds[cpath]
+        g = F.fn(cpath)
+        ok = False
+        if g is not None:
+            rows = []
+            for p in Sim(g, F).run():
+                ret = [e[1] for e in p.events if e[0] == "return"]
+                r = ret[0][1] if ret and ret[0][0] == "const" else None
+                variant, nonzero, other = None, None, False
+                for t, v in p.cond:
+                    if t[0] == "discr":
+                        variant = "|".join(sorted(v)) if isinstance(v, frozenset) else v
+                    elif t[0] == "bin" and t[3] == ("const", 0) and t[1] in ("Gt", "Ne") and v in (0, 1):
+                        nonzero = v
+                    elif t[0] == "bin" and t[3] == ("const", 0) and t[1] in ("Eq", "Le") and v in (0, 1):
+                        nonzero = 1 - v
+                    elif t[0] == "bin" and t[3] == ("const", 1) and t[1] == "Ge" and v in (0, 1):
+                        nonzero = v
+                    else:
+                        other = True
+                rows.append((variant, nonzero, r, other))
+            ok = bool(rows) and not any(o for _, _, _, o in rows) and all(
+                (r == 1) == (variant == "Reduce" and nonzero == 1) and r in (0, 1) for variant, nonzero, r, _ in rows) \
+                and any(r == 1 for _, _, r, _ in rows)
+        pred_kinds[cpath] = ok
+        return ok
+
     def outcome(p):
         ev = []
         for e in p.events:
@@ -343,26 +376,51 @@ def r2_rr(F, res):
         Atom("greater than all", lambda t: all_kind(t) == "greater", [0, 1]),
         Atom("algo", is_discr_of_field("parser_algo", "Settings"), ["LR", "GLR"]),
         Atom("non-empty", is_bin("Gt", has_field("prod_len", "LRItem"), lambda r: r == ("const", 0)), [0, 1]),
-        Atom("cell emptied", lambda t: is_call("Vec::<T, A>::is_empty", actions_cell)(t) and len(t) == 4, [0, 1]),
+        # "the cell holds a non-empty reduction", in either spelling: `actions.iter().any(non-empty reduce)`, or
+        # `actions.is_empty()` asked after the empty reductions were taken out (no shift is in the cell here)
+        Atom("cell has non-empty", lambda t: holds_non_empty(t) is not None, [0, 1], norm=lambda t, v: v if holds_non_empty(t) == "any" else 1 - v),
     ]
 
+    def holds_non_empty(t):
+        if is_call("Vec::<T, A>::is_empty", actions_cell)(t) and len(t) == 4:
+            return "emptied"
+        if isinstance(t, tuple) and t[0] == "call" and mir.strip_generics(t[1]).endswith("::any") and len(t[2]) == 2 \
+                and mir.contains(t[2][0], actions_cell) and t[2][1][0] == "closure" and is_non_empty_reduce_pred(t[2][1][1]):
+            return "any"
+        return None
+
+    def net(o):
+        """net effect of the recorded operations on the reductions of the cell"""
+        ops = [x.strip() for x in o.split(",")] if o != "nothing" else []
+        evict = "all" if "keep non-reduce" in ops else ("empty" if "keep non-empty-reduce" in ops else "none")
+        rest = [x for x in ops if x not in ("keep non-reduce", "keep non-empty-reduce", "push-reduce")]
+        return "evict=%s push=%d%s" % (evict, 1 if "push-reduce" in ops else 0, (" +" + ",".join(rest)) if rest else "")
+
     def spec(v):
+        """The documented rule, as the content of the cell afterwards: lower priority than all - out; higher than all - it
+        alone; otherwise GLR keeps everything; LR prefers non-empty reductions over empty ones and NOTHING ELSE: an empty one
+        yields to a non-empty one, a non-empty one evicts the empty ones, and among themselves (non-empty against non-empty,
+        empty against empty) nothing applies - all stay and the conflict is reported."""
         if v["lower than all"] and v["greater than all"]:
             return None   # impossible for a non-empty list
         if v["lower than all"]:
-            return "nothing"
+            return "evict=none push=0"
         if v["greater than all"]:
-            return "keep non-reduce, push-reduce"
+            return "evict=all push=1"
         if v["algo"] == "GLR":
-            return "push-reduce"
-        if v["non-empty"] or v["cell emptied"]:
-            return "keep non-empty-reduce, push-reduce"
-        return "keep non-empty-reduce"
+            return "evict=none push=1"
+        if v["non-empty"]:
+            return "evict=empty push=1"
+        if v["cell has non-empty"]:
+            return {"evict=none push=0", "evict=empty push=0"}      # a cell never holds both kinds: evicting is a no-op
+        return "evict=none push=1"
+
+    outcome_ops = outcome
+    outcome = lambda p: net(outcome_ops(p))      # noqa
 
     tb = Table(atoms, contexts, outcome).build(paths)
     for term, p in tb.unknown[:5]:
-        res.violation(rid, "unknown-guard/" + mir.short(fmt(term))[:60],
-                      "anchor lost: an unrecognised condition guards the reduce/reduce decision: %s" % fmt(term)[:300], where)
+        res.undecided(rid, "an unrecognised condition guards the reduce/reduce decision: %s" % fmt(term)[:300], where)
     if not tb.rows:
         res.anchor_lost(rid, "no path matches the reduce/reduce situation", where)
         return
